@@ -102,6 +102,27 @@ def run_harness(binpath, args, timeout=3600, env=None, check=True):
     return p
 
 
+class HarnessHang(Exception):
+    pass
+
+
+def run_harness_bounded(binpath, args, ref_seconds, env=None):
+    """Like run_harness, for a run whose twin (same scenarios, another feature build) took `ref_seconds`: a run that needs more
+    than max(240 s, 40 x ref) is a hang / deadlock of the code under test (HarnessHang), not a tool error."""
+    limit = max(240.0, 40.0 * ref_seconds)
+    e = dict(os.environ)
+    e["CARGO_NET_OFFLINE"] = "true"
+    if env:
+        e.update(env)
+    try:
+        p = subprocess.run([binpath] + args, env=e, timeout=limit, stdout=subprocess.PIPE, stderr=subprocess.STDOUT, text=True)
+    except subprocess.TimeoutExpired:
+        raise HarnessHang("no result within %d s (the default build needed %.1f s)" % (limit, ref_seconds))
+    if p.returncode != 0:
+        raise ToolError("harness %s failed (%d):\n%s" % (args[0], p.returncode, p.stdout[-4000:]))
+    return p
+
+
 # --------------------------------------------------------------------------- TLC
 
 STATS_RE = re.compile(r"(\d+) states generated, (\d+) distinct states found")
